@@ -52,6 +52,34 @@ package strategy
 //@   ensures dirty_only_set: ghost_dirty == old(ghost_dirty) || ghost_dirty == 1
 //@   ensures clean_if_nothing_wins: ghost_mergeTouched == 0 ==> ghost_nput == old(ghost_nput) && ghost_ndel == old(ghost_ndel) && ghost_dirty == old(ghost_dirty)
 
+// The callback IterUpdate gives to iterBoth, case by case: a stored entry
+// without input key is cleaned (deleted if Clean returns nothing, rewritten
+// under its own key if Clean changed it); an input key without stored entry is
+// merged with nothing and, if that yields a value, appended (database
+// exhausted) or inserted under the input key; equal keys: the stored value is
+// merged and the result replaces it under that key (deleted if empty, left
+// alone if equal).
+//@ func IterUpdate$1
+//@   modifies heap, ghost_dirty, ghost_nput, ghost_ndel, ghost_mergeTouched
+//@   after_call strategy.Iterator.Clean#0 ghost loc_cArr := arrayOf(ret0)
+//@   after_call strategy.Iterator.Clean#0 ghost loc_cOff := offsetOf(ret0)
+//@   after_call strategy.Iterator.Clean#0 ghost loc_cLen := len(ret0)
+//@   after_call strategy.Iterator.Merge#0 ghost loc_mArr := arrayOf(ret0)
+//@   after_call strategy.Iterator.Merge#0 ghost loc_mOff := offsetOf(ret0)
+//@   after_call strategy.Iterator.Merge#0 ghost loc_mLen := len(ret0)
+//@   after_call strategy.Iterator.Merge#1 ghost loc_nArr := arrayOf(ret0)
+//@   after_call strategy.Iterator.Merge#1 ghost loc_nOff := offsetOf(ret0)
+//@   after_call strategy.Iterator.Merge#1 ghost loc_nLen := len(ret0)
+//@   at_call strategy.Iterator.Clean#0 assert cleans_a_stored_entry_without_input_key: (itEOF || isnil(itKey)) && sameSlice(arg1, dbVal)
+//@   at_call lmdb.(*Cursor).Del#0 assert deletes_what_clean_dropped: ghost_loc_cLen == 0 && (itEOF || isnil(itKey))
+//@   at_call lmdb.(*Txn).Put#0 assert rewrites_the_cleaned_value_under_its_key: arg1 == dbi && sameSlice(arg2, dbKey) && arrayOf(arg3) == ghost_loc_cArr && offsetOf(arg3) == ghost_loc_cOff && uint64(len(arg3)) == ghost_loc_cLen
+//@   at_call strategy.Iterator.Merge#0 assert new_key_merges_with_nothing: isnil(arg1) && !itEOF && !isnil(itKey)
+//@   at_call lmdb.(*Cursor).Put#0 assert appends_the_merged_value_under_the_input_key: dbEOF && sameSlice(arg1, itKey) && arrayOf(arg2) == ghost_loc_mArr && offsetOf(arg2) == ghost_loc_mOff && uint64(len(arg2)) == ghost_loc_mLen && len(arg2) > 0
+//@   at_call lmdb.(*Txn).Put#1 assert inserts_the_merged_value_under_the_input_key: !dbEOF && isnil(dbKey) && arg1 == dbi && sameSlice(arg2, itKey) && arrayOf(arg3) == ghost_loc_mArr && offsetOf(arg3) == ghost_loc_mOff && uint64(len(arg3)) == ghost_loc_mLen && len(arg3) > 0
+//@   at_call strategy.Iterator.Merge#1 assert equal_keys_merge_the_stored_value: !dbEOF && !isnil(dbKey) && sameSlice(arg1, dbVal)
+//@   at_call lmdb.(*Cursor).Del#1 assert deletes_when_the_merge_yields_nothing: ghost_loc_nLen == 0
+//@   at_call lmdb.(*Txn).Put#2 assert replaces_with_the_merge_result_under_that_key: arg1 == dbi && sameSlice(arg2, itKey) && arrayOf(arg3) == ghost_loc_nArr && offsetOf(arg3) == ghost_loc_nOff && uint64(len(arg3)) == ghost_loc_nLen && len(arg3) > 0
+
 //@ func IterUpdate
 //@   trusted
 //@   modifies ghost_dirty, ghost_nput, ghost_ndel
